@@ -209,6 +209,10 @@ func Steps(t *rapid.T, p *drive.Program, o ProgOpts) []drive.Step {
 	nk := len(p.Keys)
 	tag := uint32(1)
 	steps := make([]drive.Step, 0, n)
+	// committed value per key at this point of the program (nil = absent): lets a
+	// write put back EXACTLY the bytes the database already holds (toggle and
+	// restore, undo), which unique tags alone never produce
+	committed := map[int]*drive.Val{}
 	for i := 0; i < n; i++ {
 		op := rapid.SampledFrom(ops).Draw(t, "op")
 		switch op {
@@ -216,15 +220,23 @@ func Steps(t *rapid.T, p *drive.Program, o ProgOpts) []drive.Step {
 			k := rapid.IntRange(0, nk-1).Draw(t, "k")
 			vo := o.Val
 			vo.KeyLen = len(p.Keys[k])
-			steps = append(steps, drive.Step{Op: "put", K: k, V: Value(t, tag, vo)})
+			v := Value(t, tag, vo)
+			if cv := committed[k]; cv != nil && rapid.IntRange(0, 9).Draw(t, "sameval") == 0 {
+				v = &drive.Val{Len: cv.Len, Tag: cv.Tag, Nil: cv.Nil}
+			}
+			steps = append(steps, drive.Step{Op: "put", K: k, V: v})
+			committed[k] = v
 			tag++
 		case "del":
-			steps = append(steps, drive.Step{Op: "del", K: rapid.IntRange(0, nk-1).Draw(t, "k")})
+			k := rapid.IntRange(0, nk-1).Draw(t, "k")
+			steps = append(steps, drive.Step{Op: "del", K: k})
+			delete(committed, k)
 		case "tx", "batch":
 			// size 0 included: an empty batch / a transaction that commits nothing
 			m := rapid.IntRange(0, o.MaxTxOps).Draw(t, "ntx")
 			var body []drive.TxOp
 			used := map[int]bool{}
+			touchedInBody := map[int]bool{}
 			for j := 0; j < m; j++ {
 				k := rapid.IntRange(0, nk-1).Draw(t, "k")
 				if op == "batch" && used[k] {
@@ -233,7 +245,7 @@ func Steps(t *rapid.T, p *drive.Program, o ProgOpts) []drive.Step {
 				used[k] = true
 				kinds := []string{"put", "put", "del"}
 				if op == "tx" && o.TxGets {
-					kinds = append(kinds, "get")
+					kinds = append(kinds, "get", "get", "last")
 				}
 				switch rapid.SampledFrom(kinds).Draw(t, "txop") {
 				case "put":
@@ -245,10 +257,20 @@ func Steps(t *rapid.T, p *drive.Program, o ProgOpts) []drive.Step {
 						vo.Big, vo.Huge = false, false
 					}
 					vo.KeyLen = len(p.Keys[k])
-					body = append(body, drive.TxOp{Op: "put", K: k, V: Value(t, tag, vo)})
+					v := Value(t, tag, vo)
+					// a later operation of the body on a key the body already changed
+					// often puts the committed value back
+					if cv := committed[k]; cv != nil && touchedInBody[k] && rapid.IntRange(0, 2).Draw(t, "restore") == 0 {
+						v = &drive.Val{Len: cv.Len, Tag: cv.Tag, Nil: cv.Nil}
+					}
+					touchedInBody[k] = true
+					body = append(body, drive.TxOp{Op: "put", K: k, V: v})
 					tag++
 				case "del":
+					touchedInBody[k] = true
 					body = append(body, drive.TxOp{Op: "del", K: k})
+				case "last":
+					body = append(body, drive.TxOp{Op: "last", K: k})
 				default:
 					body = append(body, drive.TxOp{Op: "get", K: k})
 				}
@@ -258,6 +280,16 @@ func Steps(t *rapid.T, p *drive.Program, o ProgOpts) []drive.Step {
 				commit = rapid.IntRange(0, 4).Draw(t, "commit") != 0
 			}
 			steps = append(steps, drive.Step{Op: op, Tx: body, Commit: commit})
+			if commit {
+				for _, bo := range body {
+					switch bo.Op {
+					case "put":
+						committed[bo.K] = bo.V
+					case "del":
+						delete(committed, bo.K)
+					}
+				}
+			}
 		case "crange":
 			a := rapid.IntRange(-1, nk-1).Draw(t, "a")
 			b := rapid.IntRange(-1, nk-1).Draw(t, "b")
